@@ -94,6 +94,22 @@ def generate(rng, tier):
         for _k in range(300):
             bits = rng.choice([rng.randrange(1, 130), rng.randrange(65, 1100), rng.randrange(1024, 2200)])
             emit(cases, rng, rand_bits(rng, bits), rng.choice([2, 2, 3, 3, 4, 5, 7, 10, rng.randrange(2, 40)]))
+    # boundary where the std f64 guess stops being finite (bits > 1024) and the scaled recursive
+    # guess starts, and its multiples: EVERY k in the ranges, so every residue of bits mod n occurs;
+    # all-ones, powers of two, +1, and values whose top 54 bits are all ones (f64 rounds up to 2^k)
+    ks = list(range(1018, 1033)) + list(range(2046, 2053)) + list(range(3070, 3076)) + list(range(4094, 4101))
+    for k in ks:
+        top54 = (((1 << 54) - 1) << (k - 54)) | rng.getrandbits(k - 54)
+        top54b = (((1 << 54) - 1) << (k - 54)) | rng.getrandbits(k - 54)
+        for x in ((1 << k) - 1, 1 << k, (1 << k) + 1, top54, top54b):
+            cases.append("u.sqrt %s" % U(x))
+            cases.append("u.cbrt %s" % U(x))
+            for n in range(2, 7):
+                cases.append("u.nth_root %s %s" % (U(x), N(n)))
+        # BigInt wrappers on the same boundary (negative operands for odd degrees)
+        cases.append("i.cbrt %s" % I(-top54))
+        cases.append("i.sqrt %s" % I(top54))
+        cases.append("i.nth_root %s %s" % (I(-top54b), N(rng.choice([3, 5]))))
     # zero / one / failures
     for n in DEGREES:
         for x in (0, 1):
